@@ -372,6 +372,103 @@ func serviceOrder(r *h.Run, idx int) {
 	r.Eval()
 }
 
+// serviceOrderDrops: one caller queues numbered QoS 0 publishes before Start;
+// the scripted broker cuts the connection after every k-th publish it receives
+// (a few times). Commands handed to a dying client may be cancelled (gaps), but
+// what reaches the broker - over all connections, in the global order of the
+// event log - must be in the order the commands were issued.
+func serviceOrderDrops(r *h.Run, idx int) {
+	if r.TooMany() {
+		return
+	}
+	rng := r.Rand(fmt.Sprintf("c15-svcdrop-%d", idx))
+	total := 40 + rng.Intn(60)
+	every := 4 + rng.Intn(12)
+	maxDrops := 2 + rng.Intn(4)
+	slow := idx%2 == 0
+	r.Journal("C15 service order with drops #%d total=%d every=%d drops=%d slowlog=%t", idx, total, every, maxDrops, slow)
+	srv := ch.NewServer()
+	var mu sync.Mutex
+	seen, drops := 0, 0
+	srv.Prep = func(c *ch.Conn) {
+		c.Peer.AutoReply = ch.Broker(false, func(in packet.Generic, def []packet.Generic) []packet.Generic {
+			if pp, ok := in.(*packet.Publish); ok && strings.HasPrefix(pp.Message.Topic, "svc/") {
+				mu.Lock()
+				seen++
+				cut := seen%every == 0 && drops < maxDrops
+				if cut {
+					drops++
+				}
+				mu.Unlock()
+				if cut {
+					c.Peer.Close()
+					return nil
+				}
+			}
+			return def
+		})
+	}
+	s := client.NewService(400)
+	s.MinReconnectDelay, s.MaxReconnectDelay = time.Millisecond, 3*time.Millisecond
+	if slow {
+		// paces the dispatcher so that a loss is noticed while commands are queued
+		s.Logger = func(string) { time.Sleep(200 * time.Microsecond) }
+	}
+	for i := 0; i < total; i++ {
+		s.Publish(fmt.Sprintf("svc/%04d", i), []byte("x"), 0, false)
+	}
+	s.Start(ch.Config(srv, "c15-svcdrop", true))
+	// the end marker is a command like the others: re-issued until one arrives
+	arrived := func() (nums []int, end bool) {
+		for _, e := range srv.Log.Events() {
+			if e.Kind != "srecv" {
+				continue
+			}
+			if pp, ok := e.Pkt.(*packet.Publish); ok && strings.HasPrefix(pp.Message.Topic, "svc/") {
+				if pp.Message.Topic == "svc/END" {
+					end = true
+					continue
+				}
+				var k int
+				fmt.Sscanf(strings.TrimPrefix(pp.Message.Topic, "svc/"), "%d", &k)
+				nums = append(nums, k)
+			}
+		}
+		return
+	}
+	ended := false
+	for try := 0; try < 400 && !ended; try++ {
+		s.Publish("svc/END", []byte("x"), 0, false)
+		time.Sleep(5 * time.Millisecond)
+		_, ended = arrived()
+	}
+	nums, _ := arrived()
+	if !ended {
+		r.Inconclusive(fmt.Sprintf("service order with drops #%d: the end marker never arrived", idx))
+	} else {
+		for i := 1; i < len(nums); i++ {
+			if nums[i] <= nums[i-1] {
+				r.Violation("service/command-order-across-reconnects", fmt.Sprintf("service order with drops #%d (%d commands queued before Start, connection cut after every %d-th publish, %d cuts): command #%d reached the broker after #%d; arrival order %v", idx, total, every, drops, nums[i], nums[i-1], nums), map[string]interface{}{"arrival_order": nums, "event_log_tail": srv.Log.Dump(120)})
+				break
+			}
+		}
+	}
+	stopped := make(chan struct{})
+	go func() { s.Stop(true); close(stopped) }()
+	select {
+	case <-stopped:
+	case <-time.After(bh.Watchdog):
+		r.Inconclusive("service Stop did not return")
+	}
+	mu.Lock()
+	d := drops
+	mu.Unlock()
+	if d > 0 && len(nums) > every {
+		r.NonTrivial(fmt.Sprintf("svcdrop:%d", idx))
+	}
+	r.Eval()
+}
+
 func clientPart(r *h.Run) {
 	nc := r.Pick(150, 3000)
 	h.Parallel(nc, 16, func(i int) { clientResend(r, i) })
@@ -382,4 +479,7 @@ func clientPart(r *h.Run) {
 	ne := r.Pick(80, 1500)
 	h.Parallel(ne, 8, func(i int) { serviceOrder(r, i) })
 	r.Count("service_order_runs", int64(ne))
+	nf := r.Pick(60, 1200)
+	h.Parallel(nf, 8, func(i int) { serviceOrderDrops(r, i) })
+	r.Count("service_order_with_drops_runs", int64(nf))
 }
